@@ -17,6 +17,40 @@ type Map = sync.Map
 type Mutex struct {
 	real   sync.Mutex
 	locked bool
+	dirty  bool
+}
+
+// Shim lock state of package-level mutexes must not leak from one execution
+// into the next (an execution may be cut while a lock is held): every mutex
+// locked under the scheduler is remembered and cleared at the next reset.
+var dirtyMutexes []*Mutex
+var dirtyRW []*RWMutex
+
+func init() {
+	vs.RegisterReset(func() {
+		for _, m := range dirtyMutexes {
+			m.locked, m.dirty = false, false
+		}
+		dirtyMutexes = dirtyMutexes[:0]
+		for _, m := range dirtyRW {
+			m.w, m.r, m.dirty = false, 0, false
+		}
+		dirtyRW = dirtyRW[:0]
+	})
+}
+
+func (m *Mutex) touch() {
+	if !m.dirty {
+		m.dirty = true
+		dirtyMutexes = append(dirtyMutexes, m)
+	}
+}
+
+func (m *RWMutex) touch() {
+	if !m.dirty {
+		m.dirty = true
+		dirtyRW = append(dirtyRW, m)
+	}
 }
 
 func (m *Mutex) Lock() {
@@ -24,7 +58,7 @@ func (m *Mutex) Lock() {
 		m.real.Lock()
 		return
 	}
-	vs.BlockOn(unsafe.Pointer(m), "mutex.Lock", func() bool { return !m.locked }, func() { m.locked = true })
+	vs.BlockOn(unsafe.Pointer(m), "mutex.Lock", func() bool { return !m.locked }, func() { m.locked = true; m.touch() })
 }
 
 func (m *Mutex) TryLock() (ok bool) {
@@ -34,6 +68,7 @@ func (m *Mutex) TryLock() (ok bool) {
 	vs.BlockOn(unsafe.Pointer(m), "mutex.TryLock", nil, func() {
 		if !m.locked {
 			m.locked = true
+			m.touch()
 			ok = true
 		}
 	})
@@ -56,9 +91,10 @@ func (m *Mutex) Unlock() {
 // RWMutex
 
 type RWMutex struct {
-	real sync.RWMutex
-	w    bool
-	r    int
+	real  sync.RWMutex
+	w     bool
+	r     int
+	dirty bool
 }
 
 func (m *RWMutex) Lock() {
@@ -66,7 +102,7 @@ func (m *RWMutex) Lock() {
 		m.real.Lock()
 		return
 	}
-	vs.BlockOn(unsafe.Pointer(m), "rwmutex.Lock", func() bool { return !m.w && m.r == 0 }, func() { m.w = true })
+	vs.BlockOn(unsafe.Pointer(m), "rwmutex.Lock", func() bool { return !m.w && m.r == 0 }, func() { m.w = true; m.touch() })
 }
 func (m *RWMutex) Unlock() {
 	if vs.W == nil {
@@ -80,7 +116,7 @@ func (m *RWMutex) RLock() {
 		m.real.RLock()
 		return
 	}
-	vs.BlockOn(unsafe.Pointer(m), "rwmutex.RLock", func() bool { return !m.w }, func() { m.r++ })
+	vs.BlockOn(unsafe.Pointer(m), "rwmutex.RLock", func() bool { return !m.w }, func() { m.r++; m.touch() })
 }
 func (m *RWMutex) RUnlock() {
 	if vs.W == nil {
@@ -96,6 +132,7 @@ func (m *RWMutex) TryLock() (ok bool) {
 	vs.BlockOn(unsafe.Pointer(m), "rwmutex.TryLock", nil, func() {
 		if !m.w && m.r == 0 {
 			m.w = true
+			m.touch()
 			ok = true
 		}
 	})
